@@ -2,6 +2,7 @@
 the order in which per-polynomial evaluations are shipped and re-attached."""
 from .. import tables as T
 from ..rules import influence as R1
+from ..rules import everyiter as R1D
 from ..rules import refusal as R5
 from ..rules import keyorder as R9
 
@@ -13,11 +14,14 @@ EXPLANATION = (
     "MarlinPST13), Sonic and IPA overrides construct EquationHasDegreeBounds in dependence of the combination and the "
     "polynomials / commitments and propagate it. R1 (transcript cut): in every check_combinations the coefficients and "
     "constant terms of the linear combinations, the claimed combination values, and - in the trait default - the "
-    "transmitted per-polynomial evaluations reach the decision. R9: the trait default ships `evals` in the iteration "
+    "transmitted per-polynomial evaluations reach the decision. R1d: the coefficient that a combination loop extracts per "
+    "term is consumed on every path to the next term - in the constant-term arm (moved to the claimed value) as well as "
+    "in the polynomial-term arm (scaling the commitment); liveness alone cannot tell the two apart because either arm "
+    "keeps the coefficient live. R9: the trait default ships `evals` in the iteration "
     "order of one ordered container and re-attaches them by zipping with another; the two containers must be ordered "
     "by the same key type, otherwise two point labels that share a point value shift every later evaluation. "
     "Correctness of the homomorphic combination itself is not decided.")
-RULE = ("instances = 8 refusal rows + check_combinations anchors x {coefficients, values, proof.evals} + 1 writer/reader "
+RULE = ("instances = 8 refusal rows + check_combinations anchors x {coefficients, values, proof.evals, coefficient consumed per term} + 1 writer/reader "
         "key-agreement instance")
 
 PC = T.PC
@@ -50,6 +54,12 @@ def run(rep, ctx, tier):
         for name, comp in comps:
             ok, detail, where, n = R1.component(ctx, a, comp, cut_sponge=True)
             rep.add("R1", "%s:%s" % (a.key, name), ok, detail, where or a.body.span, nontrivial=n > 0)
+        # R1d: a coefficient the combination loop extracts is consumed on every path to the next term (in the
+        # constant-term arm as well as in the polynomial-term arm)
+        g = ctx.graph(a)
+        if ("FIELD", LCOMB, "terms") in g.fwd:
+            R1D.run_values(rep, ctx, a, "R1d", role="coefficients", what="coefficient of an equation term",
+                           starts=[("FIELD", LCOMB, "terms")])
     # R9 on the trait-default pair
     ob = f.find1("open_combinations", in_trait=PC)
     cb = f.find1("check_combinations", in_trait=PC)
